@@ -1,2 +1,905 @@
-//! Forward model of the detector (placeholder; being written).
-pub fn stats(_seed: u64, _n: usize, _out: &str) {}
+//! Independent forward model of the ALPHA-g rTPC ("simulated annihilations"), used as an event
+//! generator by other harness modules (C09, C11, C13, C19) and to *measure* the statistics that
+//! property C12 talks about (`corr simstats`). Nothing in here is a claim about the library.
+//!
+//! The model (all lengths in metres, times in seconds, angles in radians):
+//!
+//! * 2–4 helices (axis parallel to z) leave a common vertex with |x|,|y| ≤ 1 cm, |z| ≤ 0.8 m.
+//!   Per track: uniform azimuth of the initial direction, curvature radius 0.3–3.3 m, either
+//!   charge (sense of rotation = −charge, field along +z), dz/ds ∈ [−0.8, 0.8] where s is the
+//!   arc length of the projection on the x-y plane.
+//! * Each helix is followed outwards in 30 µm arc steps. Inside the drift volume (inner cathode
+//!   0.1092 m → anode wires 0.182 m) every step deposits an ionisation charge proportional to
+//!   its 3-D length (uniform dE/dx, no fluctuations).
+//! * A deposit at (r, φ, z) drifts with the *shipped drift table* of its z-slice read backwards
+//!   (radius → drift time, linear interpolation; time 0 at the anode) and arrives at the anode
+//!   at azimuth φ + Lorentz angle(t) (the reconstruction subtracts that angle), on the nearest
+//!   anode wire, in time bin round(t / 16 ns).
+//! * Wire signal = Σ charge × shipped wire response (16 ns bins) shifted to the time bin; every
+//!   wire also receives the induced signals of its neighbours ±1..±4 scaled by the shipped
+//!   neighbour factors.
+//! * Pad signal: only on the pad column facing the wire; the charge (× `PAD_TO_WIRE_CHARGE`) is
+//!   spread over the pad rows with a Gaussian of width σ_z integrated over each 4 mm pad, then
+//!   × shipped pad response (sign convention of the library: negative-going).
+//! * Digitisation inverts the simulation-run calibration (`raw = signal / gain + baseline`,
+//!   rounded, clamped to the ADC ranges), `delay` baseline samples are prepended, and everything
+//!   is packed into spec-conformant banks under run number `u32::MAX`: one ADC v3 packet
+//!   (suppression off, footer baseline = floor mean of the first 64 samples) per wire with signal
+//!   (bank `C<board><0-9A-V>`), one PWB v2 packet per (board, AFTER chip) with all fired pads, cut
+//!   into CRC-valid chunks (banks `PC<board>`), one TRG packet (bank `ATAT`).
+//!
+//! What is taken from the library: the response functions, neighbour factors, drift tables,
+//! calibration constants (through the `alpha_g_verif` hooks) and the *public* channel maps
+//! (`TpcWirePosition::try_new / phi`, `TpcPadPosition::try_new`, `TpcPadRow::z`). The geometry of
+//! "which wire / pad column / pad row faces an azimuth / height" is computed here from the
+//! documented pitches and cross-checked against those public accessors when the detector
+//! description is built.
+use crate::Rng;
+use alpha_g_detector::alpha16::aw_map::{
+    TpcWirePosition, ANODE_WIRES_RADIUS, INNER_CATHODE_RADIUS, TPC_ANODE_WIRES,
+};
+use alpha_g_detector::alpha16::{self, Adc32ChannelId, ADC32_RATE, ADC_MAX, ADC_MIN};
+use alpha_g_detector::padwing::map::{
+    TpcPadPosition, TpcPadRow, DETECTOR_LENGTH, PAD_PITCH_Z, TPC_PAD_COLUMNS, TPC_PAD_ROWS,
+};
+use alpha_g_detector::padwing::{self, AfterId, PWB_MAX, PWB_MIN, PWB_RATE};
+use alpha_g_physics::verif as hooks;
+use alpha_g_physics::MainEvent;
+use std::collections::BTreeMap;
+use std::f64::consts::{PI, TAU};
+use std::sync::OnceLock;
+
+// The packet encoders of the decoder properties are reused. When this module is built without
+// their cargo features, private copies are compiled instead.
+#[cfg(feature = "c02")]
+use crate::c02;
+#[cfg(not(feature = "c02"))]
+#[path = "c02.rs"]
+#[allow(dead_code, unused_imports)]
+mod c02;
+#[cfg(feature = "c04")]
+use crate::c04;
+#[cfg(not(feature = "c04"))]
+#[path = "c04.rs"]
+#[allow(dead_code, unused_imports)]
+mod c04;
+#[cfg(feature = "c05")]
+use crate::c05;
+#[cfg(not(feature = "c05"))]
+#[path = "c05.rs"]
+#[allow(dead_code, unused_imports)]
+mod c05;
+#[cfg(feature = "c06")]
+use crate::c06;
+#[cfg(not(feature = "c06"))]
+#[path = "c06.rs"]
+#[allow(dead_code, unused_imports)]
+mod c06;
+
+/// Run number of simulated data.
+pub const SIM_RUN: u32 = u32::MAX;
+/// Number of signal samples (after the calibration delay) of every simulated waveform.
+pub const SIGNAL_SAMPLES: usize = 410;
+/// Pad charge per unit of wire charge (the library never compares the two scales; it only
+/// sorts wire hits and pad hits by amplitude).
+pub const PAD_TO_WIRE_CHARGE: f64 = 10.0;
+/// Path length that deposits one `amplitude` unit of wire charge (mean radial extent of one
+/// 16 ns time bin: 7.28 cm of drift in ≈ 268 bins).
+pub const REF_PATH: f64 = 0.27e-3;
+/// Arc step (projection on the x-y plane) of the helix integration.
+const STEP: f64 = 30e-6;
+/// Payload bytes per PWB chunk.
+const CHUNK_PAYLOAD: usize = 1024;
+
+#[derive(Clone, Debug, PartialEq)]
+pub struct SimTrack {
+    /// azimuth of the initial direction (at the vertex), [0, 2π)
+    pub phi0: f64,
+    /// curvature radius of the projection on the x-y plane, metres
+    pub radius: f64,
+    /// +1 / −1; the helix turns clockwise (seen from +z) for +1
+    pub charge: i8,
+    /// dz per unit arc length of the x-y projection
+    pub dz_ds: f64,
+}
+
+#[derive(Clone, Debug)]
+pub struct SimEvent {
+    /// bank name, data; ready for `MainEvent::try_from_banks(u32::MAX, …)`
+    pub banks: Vec<(String, Vec<u8>)>,
+    /// true vertex, metres
+    pub vertex: [f64; 3],
+    pub tracks: Vec<SimTrack>,
+    pub trg_timestamp: u32,
+    /// per-event avalanche amplitude and pad charge width actually drawn
+    pub amplitude: f64,
+    pub pad_sigma_z: f64,
+    /// number of samples that hit an ADC rail (0 for the default configuration, almost always)
+    pub clamped_samples: usize,
+}
+
+impl SimEvent {
+    /// The banks in the form `try_from_banks` takes.
+    pub fn bank_refs(&self) -> Vec<(&str, &[u8])> {
+        self.banks.iter().map(|(n, d)| (n.as_str(), d.as_slice())).collect()
+    }
+}
+
+#[derive(Clone, Debug)]
+pub struct SimConfig {
+    /// inclusive range of the number of tracks
+    pub n_tracks: (usize, usize),
+    /// range of the per-event avalanche amplitude: wire charge (in units of the wire response)
+    /// deposited per `REF_PATH` of track
+    pub amplitude: (f64, f64),
+    /// range of the per-event Gaussian width (metres) of the pad charge along z
+    pub pad_sigma_z: (f64, f64),
+    /// r.m.s. of Gaussian electronic noise in ADC counts added to every sample of every channel
+    /// that has a bank; 0 = noise-free
+    pub noise_adc: f64,
+}
+
+impl Default for SimConfig {
+    fn default() -> Self {
+        SimConfig { n_tracks: (2, 4), amplitude: (4.0, 12.0), pad_sigma_z: (0.003, 0.006), noise_adc: 0.0 }
+    }
+}
+
+// ------------------------------------------------------------------------------------------
+// static detector description
+
+struct WireSrc {
+    bank: String,
+    mac: [u8; 6],
+    channel: u8,
+    baseline: i16,
+    gain: f64,
+}
+
+#[derive(Clone, Copy)]
+struct PadSrc {
+    board: usize,
+    chip: u8,
+    readout: u16,
+    baseline: i16,
+    gain: f64,
+}
+
+struct DriftSlice {
+    z_upper: f64,
+    /// (time, radius, Lorentz angle), time ascending
+    rows: Vec<(f64, f64, f64)>,
+    /// radius strictly decreasing with time → binary search is valid
+    monotone: bool,
+}
+
+struct Detector {
+    wire_resp: Vec<f64>,
+    pad_resp: Vec<f64>,
+    neighbours: [f64; 5],
+    drift: Vec<DriftSlice>,
+    /// azimuthal slot k (wire at (k + ½)·2π/256) → library wire index
+    wire_of_slot: Vec<usize>,
+    /// by library wire index
+    wire_src: Vec<WireSrc>,
+    /// by column·576 + row
+    pad_src: Vec<Option<PadSrc>>,
+    /// (name, MAC, device id)
+    pwb_boards: Vec<(String, [u8; 6], u32)>,
+    wire_delay: usize,
+    pad_delay: usize,
+}
+
+const WIRE_PITCH: f64 = TAU / TPC_ANODE_WIRES as f64;
+const PAD_PITCH_PHI: f64 = TAU / TPC_PAD_COLUMNS as f64;
+const B32: &[u8; 32] = b"0123456789ABCDEFGHIJKLMNOPQRSTUV";
+
+fn detector() -> &'static Detector {
+    static D: OnceLock<Detector> = OnceLock::new();
+    D.get_or_init(build_detector)
+}
+
+fn build_detector() -> Detector {
+    assert!(ADC32_RATE == PWB_RATE, "wire and pad time bins are assumed to be the same");
+    // wires: every (board, channel) through the public map
+    let mut wire_src: Vec<Option<WireSrc>> = (0..TPC_ANODE_WIRES).map(|_| None).collect();
+    for i in 0..100 {
+        let name = format!("{i:02}");
+        let Ok(board) = alpha16::BoardId::try_from(name.as_str()) else { continue };
+        for ch in 0..32u8 {
+            let Ok(pos) = TpcWirePosition::try_new(SIM_RUN, board, Adc32ChannelId::try_from(ch).unwrap()) else {
+                continue;
+            };
+            let idx = usize::from(pos);
+            assert!(wire_src[idx].is_none(), "wire map is not injective");
+            wire_src[idx] = Some(WireSrc {
+                bank: format!("C{name}{}", B32[ch as usize] as char),
+                mac: board.mac_address(),
+                channel: ch,
+                baseline: hooks::wire_baseline(SIM_RUN, pos).expect("simulation wire baseline"),
+                gain: hooks::wire_gain(SIM_RUN, pos).expect("simulation wire gain"),
+            });
+        }
+    }
+    let wire_src: Vec<WireSrc> = wire_src.into_iter().map(|w| w.expect("wire without a channel")).collect();
+    // azimuthal slots: wire k sits at (k + ½)·pitch for exactly one library index
+    let mut wire_of_slot = vec![usize::MAX; TPC_ANODE_WIRES];
+    for idx in 0..TPC_ANODE_WIRES {
+        let phi = TpcWirePosition::try_from(idx).unwrap().phi();
+        let k = (phi / WIRE_PITCH).floor() as usize;
+        assert!(k < TPC_ANODE_WIRES && wire_of_slot[k] == usize::MAX, "two wires in one azimuthal slot");
+        assert!((phi - (k as f64 + 0.5) * WIRE_PITCH).abs() < 1e-9, "wire not at the centre of its slot");
+        wire_of_slot[k] = idx;
+    }
+    // the pad column facing a wire, geometrically, against the library's table
+    for (k, &idx) in wire_of_slot.iter().enumerate() {
+        let col = column_of_slot(k);
+        assert_eq!(col, hooks::verif_wire_to_pad_column(idx), "pad column facing wire slot {k}");
+        assert!(hooks::verif_pad_column_to_wires(col).any(|w| w & 0xff == idx));
+    }
+    // pad rows: z of the row centre
+    for row in [0usize, 1, 287, 288, 575] {
+        let z = TpcPadRow::try_from(row).unwrap().z();
+        assert!((z - ((row as f64 + 0.5) * PAD_PITCH_Z - 0.5 * DETECTOR_LENGTH)).abs() < 1e-12);
+    }
+    // pads
+    let pwb_boards = c05::boards_cached().clone();
+    let mut pad_src: Vec<Option<PadSrc>> = vec![None; TPC_PAD_COLUMNS * TPC_PAD_ROWS];
+    for (bi, (name, _, _)) in pwb_boards.iter().enumerate() {
+        let board = padwing::BoardId::try_from(name.as_str()).unwrap();
+        for chip in 0..4u8 {
+            let after = AfterId::try_from(chip).unwrap();
+            for readout in 1..=79u16 {
+                let Ok(padwing::ChannelId::Pad(pc)) = padwing::ChannelId::try_from(readout) else { continue };
+                let Ok(pos) = TpcPadPosition::try_new(SIM_RUN, board, after, pc) else { continue };
+                let slot = usize::from(pos.column) * TPC_PAD_ROWS + usize::from(pos.row);
+                assert!(pad_src[slot].is_none(), "pad map is not injective");
+                pad_src[slot] = Some(PadSrc {
+                    board: bi,
+                    chip,
+                    readout,
+                    baseline: hooks::pad_baseline(SIM_RUN, pos).expect("simulation pad baseline"),
+                    gain: hooks::pad_gain(SIM_RUN, pos).expect("simulation pad gain"),
+                });
+            }
+        }
+    }
+    assert!(pad_src.iter().all(|p| p.is_some()), "pad without a channel");
+    let drift = hooks::verif_drift_tables()
+        .into_iter()
+        .map(|(rows, z_upper)| {
+            let monotone = rows.windows(2).all(|w| w[1].1 < w[0].1 && w[1].0 > w[0].0);
+            DriftSlice { z_upper, rows, monotone }
+        })
+        .collect();
+    Detector {
+        wire_resp: hooks::verif_wire_response(),
+        pad_resp: hooks::verif_pad_response(),
+        neighbours: hooks::verif_neighbor_factors(),
+        drift,
+        wire_of_slot,
+        wire_src,
+        pad_src,
+        pwb_boards,
+        wire_delay: hooks::wire_delay(SIM_RUN).expect("simulation wire delay"),
+        pad_delay: hooks::pad_delay(SIM_RUN).expect("simulation pad delay"),
+    }
+}
+
+/// Pad column whose azimuthal range contains the wire of slot `k`.
+fn column_of_slot(k: usize) -> usize {
+    (((k as f64 + 0.5) * WIRE_PITCH) / PAD_PITCH_PHI).floor() as usize
+}
+
+impl Detector {
+    /// Drift time and Lorentz angle of an ionisation at radius `r`, height `z` (`None`: outside
+    /// the tabulated volume).
+    fn drift(&self, r: f64, z: f64) -> Option<(f64, f64)> {
+        let za = z.abs();
+        let slice = self.drift.iter().find(|s| s.z_upper >= za)?;
+        let rows = &slice.rows;
+        if r >= rows[0].1 {
+            // between the last tabulated radius and the wire: arrives immediately
+            return Some((rows[0].0, rows[0].2));
+        }
+        if r < rows[rows.len() - 1].1 {
+            return None;
+        }
+        let i = if slice.monotone {
+            // first index with radius <= r
+            rows.partition_point(|row| row.1 > r)
+        } else {
+            rows.iter().position(|row| row.1 <= r)?
+        };
+        let (t0, r0, c0) = rows[i - 1];
+        let (t1, r1, c1) = rows[i];
+        let f = if r1 == r0 { 0.0 } else { (r - r0) / (r1 - r0) };
+        Some((t0 + f * (t1 - t0), c0 + f * (c1 - c0)))
+    }
+}
+
+// ------------------------------------------------------------------------------------------
+// small numerics
+
+/// Complementary error function (Chebyshev fit, fractional error < 1.2e-7 everywhere).
+fn erfc(x: f64) -> f64 {
+    let z = x.abs();
+    let t = 1.0 / (1.0 + 0.5 * z);
+    let poly = -1.26551223
+        + t * (1.00002368
+            + t * (0.37409196
+                + t * (0.09678418
+                    + t * (-0.18628806
+                        + t * (0.27886807 + t * (-1.13520398 + t * (1.48851587 + t * (-0.82215223 + t * 0.17087277))))))));
+    let ans = t * (-z * z + poly).exp();
+    if x >= 0.0 {
+        ans
+    } else {
+        2.0 - ans
+    }
+}
+
+/// Gaussian cumulative distribution function.
+fn gauss_cdf(x: f64) -> f64 {
+    0.5 * erfc(-x / std::f64::consts::SQRT_2)
+}
+
+fn uniform(rng: &mut Rng, lo: f64, hi: f64) -> f64 {
+    lo + (hi - lo) * rng.f64_unit()
+}
+
+fn gaussian(rng: &mut Rng) -> f64 {
+    // Box–Muller; 1 − u ∈ (0, 1]
+    let u = 1.0 - rng.f64_unit();
+    let v = rng.f64_unit();
+    (-2.0 * u.ln()).sqrt() * (TAU * v).cos()
+}
+
+// ------------------------------------------------------------------------------------------
+// the event
+
+/// Ionisation charge per (wire slot, time bin) and per (pad column, pad row, time bin).
+#[derive(Default)]
+struct Charges {
+    wires: BTreeMap<usize, Vec<f64>>,
+    pads: BTreeMap<(usize, usize), Vec<f64>>,
+}
+
+fn deposit_track(det: &Detector, vertex: [f64; 3], tr: &SimTrack, amplitude: f64, sigma_z: f64, out: &mut Charges) {
+    // sense of rotation: counter-clockwise for negative charge (field along +z)
+    let q = -f64::from(tr.charge);
+    let (sin0, cos0) = tr.phi0.sin_cos();
+    let cx = vertex[0] - q * tr.radius * sin0;
+    let cy = vertex[1] + q * tr.radius * cos0;
+    let theta0 = tr.phi0 - q * PI / 2.0;
+    let dl = STEP * (1.0 + tr.dz_ds * tr.dz_ds).sqrt();
+    let charge = amplitude * dl / REF_PATH;
+    let half_length = 0.5 * DETECTOR_LENGTH;
+    let reach = (4.0 * sigma_z / PAD_PITCH_Z).ceil() as i64 + 1;
+    let inv_sigma = 1.0 / sigma_z;
+    let bin_width = 1.0 / ADC32_RATE;
+    let mut cdf = Vec::with_capacity(2 * reach as usize + 2);
+    // a circle of radius ≥ 0.3 m through a point ≤ 1.5 cm from the axis leaves the anode radius
+    // after less than 0.25 m of arc
+    let n_steps = (0.30 / STEP) as usize;
+    for i in 0..n_steps {
+        let s = (i as f64 + 0.5) * STEP;
+        let a = theta0 + q * s / tr.radius;
+        let x = cx + tr.radius * a.cos();
+        let y = cy + tr.radius * a.sin();
+        let r = x.hypot(y);
+        if r < INNER_CATHODE_RADIUS {
+            continue;
+        }
+        if r > ANODE_WIRES_RADIUS {
+            break;
+        }
+        let z = vertex[2] + tr.dz_ds * s;
+        if z.abs() >= half_length {
+            continue;
+        }
+        let Some((t, lorentz)) = det.drift(r, z) else { continue };
+        let bin = (t / bin_width).round() as usize;
+        if bin >= SIGNAL_SAMPLES {
+            continue;
+        }
+        let mutn: i32 = std::env::var("SIM_MUT").ok().and_then(|v| v.parse().ok()).unwrap_or(0);
+        let lorentz = if mutn == 1 { -lorentz } else if mutn == 5 { 0.0 } else { lorentz };
+        let phi = (y.atan2(x) + lorentz).rem_euclid(TAU);
+        let mut slot = ((phi / WIRE_PITCH).floor() as usize).min(TPC_ANODE_WIRES - 1);
+        let slot0 = slot;
+        if mutn == 3 { slot = (slot + 8) % 256; }
+        if mutn == 7 { slot = (slot + 1) % 256; }
+        let z_true = z;
+        let z = if mutn == 4 { z + PAD_PITCH_Z } else if mutn == 6 { -z } else { z };
+        let _ = z_true;
+        let bin_w = bin;
+        let bin = if mutn == 2 { bin + 2 } else if mutn == 8 { bin + 1 } else { bin };
+        if bin >= SIGNAL_SAMPLES { continue; }
+        out.wires.entry(slot).or_insert_with(|| vec![0.0; SIGNAL_SAMPLES])[bin_w] += charge;
+        // pads of the facing column
+        let column = column_of_slot(slot0);
+        let centre = ((z + half_length) / PAD_PITCH_Z).floor() as i64;
+        let lo = (centre - reach).max(0);
+        let hi = (centre + reach).min(TPC_PAD_ROWS as i64 - 1);
+        cdf.clear();
+        for row in lo..=hi + 1 {
+            let edge = row as f64 * PAD_PITCH_Z - half_length;
+            cdf.push(gauss_cdf((edge - z) * inv_sigma));
+        }
+        for row in lo..=hi {
+            let k = (row - lo) as usize;
+            let fraction = cdf[k + 1] - cdf[k];
+            if fraction > 0.0 {
+                out.pads.entry((column, row as usize)).or_insert_with(|| vec![0.0; SIGNAL_SAMPLES])[bin] +=
+                    charge * PAD_TO_WIRE_CHARGE * fraction;
+            }
+        }
+    }
+}
+
+/// Σ_b input[b] · response[k − b] for k < `SIGNAL_SAMPLES`.
+fn convolve(input: &[f64], response: &[f64]) -> Vec<f64> {
+    let mut out = vec![0.0; SIGNAL_SAMPLES];
+    for (b, &a) in input.iter().enumerate() {
+        if a == 0.0 {
+            continue;
+        }
+        for (o, r) in out[b..].iter_mut().zip(response) {
+            *o += a * r;
+        }
+    }
+    out
+}
+
+/// `delay` baseline samples followed by the digitised signal; returns the number of clamped
+/// samples as well.
+#[allow(clippy::too_many_arguments)]
+fn digitise(
+    rng: &mut Rng,
+    signal: &[f64],
+    baseline: i16,
+    gain: f64,
+    delay: usize,
+    noise: f64,
+    min: i16,
+    max: i16,
+) -> (Vec<i16>, usize) {
+    let mut clamped = 0;
+    let mut wave = Vec::with_capacity(delay + signal.len());
+    let (lo, hi) = (f64::from(min), f64::from(max));
+    for i in 0..delay + signal.len() {
+        let s = if i < delay { 0.0 } else { signal[i - delay] };
+        let mut v = s / gain + f64::from(baseline);
+        if noise > 0.0 {
+            v += noise * gaussian(rng);
+        }
+        let v = v.round();
+        if v < lo || v > hi {
+            clamped += 1;
+        }
+        wave.push(v.clamp(lo, hi) as i16);
+    }
+    (wave, clamped)
+}
+
+fn adc_packet(rng: &mut Rng, src: &WireSrc, wave: Vec<i16>, trigger: u16, timestamp: u64) -> Vec<u8> {
+    assert!(wave.len() >= 64);
+    let f = c02::Fields {
+        trig: trigger,
+        module: rng.below(8) as u8,
+        chan: 128 + src.channel,
+        req: (wave.len() + 2) as u16,
+        ts: timestamp,
+        mac: Some(src.mac),
+        trig_off: -(rng.below(1000) as i32),
+        build: 0x6000_0000 + rng.below(1 << 20) as u32,
+        baseline: c02::floor_baseline(&wave) as i16,
+        wave,
+        keep_last: 0,
+        keep_bit: false,
+        supp: false,
+    };
+    c02::encode(&f)
+}
+
+/// One event of the forward model. Everything random comes from `rng`; the same `rng` state and
+/// configuration give the same event, byte for byte.
+pub fn simulate_event(rng: &mut Rng, cfg: &SimConfig) -> SimEvent {
+    let det = detector();
+    let vertex = [uniform(rng, -0.01, 0.01), uniform(rng, -0.01, 0.01), uniform(rng, -0.8, 0.8)];
+    let n_tracks = rng.range(cfg.n_tracks.0 as u64, cfg.n_tracks.1.max(cfg.n_tracks.0) as u64) as usize;
+    let amplitude = uniform(rng, cfg.amplitude.0, cfg.amplitude.1);
+    let sigma_z = uniform(rng, cfg.pad_sigma_z.0, cfg.pad_sigma_z.1).max(1e-4);
+    let tracks: Vec<SimTrack> = (0..n_tracks)
+        .map(|_| SimTrack {
+            phi0: uniform(rng, 0.0, TAU),
+            radius: uniform(rng, 0.3, 3.3),
+            charge: if rng.bool() { 1 } else { -1 },
+            dz_ds: uniform(rng, -0.8, 0.8),
+        })
+        .collect();
+    let trg_timestamp = rng.next() as u32;
+
+    let mut charges = Charges::default();
+    for tr in &tracks {
+        deposit_track(det, vertex, tr, amplitude, sigma_z, &mut charges);
+    }
+
+    let mut banks: Vec<(String, Vec<u8>)> = Vec::new();
+    let mut clamped_samples = 0;
+    // trigger
+    let mut trg = c06::random_fields(rng);
+    trg.ts = trg_timestamp;
+    banks.push(("ATAT".to_string(), c06::encode(&trg)));
+
+    // wires: direct signals, then induction on the neighbours ±1..±4
+    let direct: BTreeMap<usize, Vec<f64>> =
+        charges.wires.iter().map(|(&slot, input)| (slot, convolve(input, &det.wire_resp))).collect();
+    let mut total: BTreeMap<usize, Vec<f64>> = BTreeMap::new();
+    for (&slot, signal) in &direct {
+        for d in -4i64..=4 {
+            let factor = det.neighbours[d.unsigned_abs() as usize];
+            let target = (slot as i64 + d).rem_euclid(TPC_ANODE_WIRES as i64) as usize;
+            let acc = total.entry(target).or_insert_with(|| vec![0.0; SIGNAL_SAMPLES]);
+            for (a, s) in acc.iter_mut().zip(signal) {
+                *a += factor * s;
+            }
+        }
+    }
+    let adc_trigger = rng.next() as u16;
+    let adc_timestamp = rng.next() >> 16;
+    for (slot, signal) in &total {
+        let src = &det.wire_src[det.wire_of_slot[*slot]];
+        let (wave, c) =
+            digitise(rng, signal, src.baseline, src.gain, det.wire_delay, cfg.noise_adc, ADC_MIN, ADC_MAX);
+        clamped_samples += c;
+        banks.push((src.bank.clone(), adc_packet(rng, src, wave, adc_trigger, adc_timestamp)));
+    }
+
+    // pads: one packet per (board, chip) with every fired channel
+    let mut chips: BTreeMap<(usize, u8), Vec<(u16, Vec<i16>)>> = BTreeMap::new();
+    for (&(column, row), input) in &charges.pads {
+        let src = det.pad_src[column * TPC_PAD_ROWS + row].unwrap();
+        let signal = convolve(input, &det.pad_resp);
+        let (wave, c) = digitise(rng, &signal, src.baseline, src.gain, det.pad_delay, cfg.noise_adc, PWB_MIN, PWB_MAX);
+        if cfg.noise_adc == 0.0 && wave.iter().all(|&v| v == src.baseline) {
+            continue; // nothing above the least significant bit: the channel did not fire
+        }
+        clamped_samples += c;
+        chips.entry((src.board, src.chip)).or_default().push((src.readout, wave));
+    }
+    let pwb_timestamp = rng.next() & ((1u64 << 48) - 1);
+    let event_counter = rng.next() as u32;
+    for ((board, chip), mut sent) in chips {
+        sent.sort_by_key(|(readout, _)| *readout);
+        let (name, mac, dev) = &det.pwb_boards[board];
+        let mut mask = 0u128;
+        for (readout, _) in &sent {
+            mask |= 1u128 << (readout - 1);
+        }
+        let f = c05::Fields {
+            after: b'A' + chip,
+            comp: 0,
+            trig: 0,
+            mac: *mac,
+            delay: 0,
+            ts: pwb_timestamp,
+            last_sca: rng.below(512) as u16,
+            req: (det.pad_delay + SIGNAL_SAMPLES) as u16,
+            sent: mask,
+            thr: mask,
+            evc: event_counter,
+            fifo: rng.below(64) as u16,
+            wd: 1,
+            rd: 0,
+            waves: sent.into_iter().map(|(_, w)| w).collect(),
+        };
+        let payload = c05::encode(&f);
+        let sequence = rng.next() as u32;
+        for (i, cv) in c04::cut(&payload, CHUNK_PAYLOAD, *dev, chip).iter().enumerate() {
+            banks.push((format!("PC{name}"), c04::chunk_bytes(cv, sequence, i as u16)));
+        }
+    }
+
+    SimEvent { banks, vertex, tracks, trg_timestamp, amplitude, pad_sigma_z: sigma_z, clamped_samples }
+}
+
+/// The generator state of event `index` of the batch `seed` (so that a single event replays).
+pub fn event_rng(seed: u64, index: usize) -> Rng {
+    Rng::new(seed.wrapping_mul(0x0001_0000_0001_B3).wrapping_add(index as u64))
+}
+
+// ------------------------------------------------------------------------------------------
+// statistics (C12's numbers; informational)
+
+struct Outcome {
+    index: usize,
+    n_tracks: usize,
+    n_banks: usize,
+    sim_ms: f64,
+    build: Result<(), String>,
+    deterministic: bool,
+    clamped: usize,
+    vertex_ms: f64,
+    /// reconstructed − true, metres
+    residual: Option<[f64; 3]>,
+    panic: Option<String>,
+    /// (avalanches, space points, clusters, fitted tracks) of events without a vertex
+    diagnosis: Option<(usize, usize, usize, usize)>,
+    /// space points against the true tracks: (r·Δφ, Δz)
+    points: Vec<[f64; 2]>,
+}
+
+fn run_one(seed: u64, index: usize, cfg: &SimConfig) -> Outcome {
+    use alpha_g_physics::reconstruction::{cluster_spacepoints, Track};
+    use alpha_g_physics::SpacePoint;
+    use uom::si::length::meter;
+    let t0 = std::time::Instant::now();
+    let ev = simulate_event(&mut event_rng(seed, index), cfg);
+    let sim_ms = t0.elapsed().as_secs_f64() * 1e3;
+    let again = simulate_event(&mut event_rng(seed, index), cfg);
+    let mut out = Outcome {
+        index,
+        n_tracks: ev.tracks.len(),
+        n_banks: ev.banks.len(),
+        sim_ms,
+        build: Ok(()),
+        deterministic: again.banks == ev.banks && again.vertex == ev.vertex && again.tracks == ev.tracks,
+        clamped: ev.clamped_samples,
+        vertex_ms: 0.0,
+        residual: None,
+        panic: None,
+        diagnosis: None,
+        points: Vec::new(),
+    };
+    let event = match crate::guarded(|| MainEvent::try_from_banks(SIM_RUN, ev.bank_refs())) {
+        Ok(Ok(e)) => e,
+        Ok(Err(e)) => {
+            out.build = Err(format!("{e:?}"));
+            return out;
+        }
+        Err(p) => {
+            out.build = Err(format!("panic: {p}"));
+            out.panic = Some(p);
+            return out;
+        }
+    };
+    if event.timestamp() != ev.trg_timestamp {
+        out.build = Err("timestamp differs".to_string());
+    }
+    let t1 = std::time::Instant::now();
+    match crate::guarded(|| event.vertex()) {
+        Ok(Some(v)) => {
+            out.residual = Some([
+                v.x.get::<meter>() - ev.vertex[0],
+                v.y.get::<meter>() - ev.vertex[1],
+                v.z.get::<meter>() - ev.vertex[2],
+            ]);
+        }
+        Ok(None) => {
+            let d = crate::guarded(|| {
+                let avalanches = event.avalanches();
+                let points: Vec<SpacePoint> = avalanches.iter().filter_map(|a| (*a).try_into().ok()).collect();
+                let n_points = points.len();
+                let clusters = cluster_spacepoints(points).clusters;
+                let n_clusters = clusters.len();
+                let n_fitted = clusters.into_iter().filter_map(|c| Track::try_from(c).ok()).count();
+                (avalanches.len(), n_points, n_clusters, n_fitted)
+            });
+            out.diagnosis = d.ok();
+        }
+        Err(p) => out.panic = Some(p),
+    }
+    out.vertex_ms = t1.elapsed().as_secs_f64() * 1e3;
+    if let Ok(p) = crate::guarded(|| point_residuals_of(&ev, &event)) {
+        out.points = p.iter().map(|r| [r[1], r[2]]).collect();
+    }
+    out
+}
+
+/// Position of a true track where it crosses radius `r`: (azimuth, z). `None` if it never does.
+pub fn track_at_radius(vertex: [f64; 3], tr: &SimTrack, r: f64) -> Option<(f64, f64)> {
+    let q = -f64::from(tr.charge);
+    let (sin0, cos0) = tr.phi0.sin_cos();
+    let cx = vertex[0] - q * tr.radius * sin0;
+    let cy = vertex[1] + q * tr.radius * cos0;
+    let theta0 = tr.phi0 - q * PI / 2.0;
+    let radius_at = |s: f64| {
+        let a = theta0 + q * s / tr.radius;
+        (cx + tr.radius * a.cos()).hypot(cy + tr.radius * a.sin())
+    };
+    // the distance from the axis grows monotonically along the first 0.3 m of arc
+    let (mut lo, mut hi) = (0.0, 0.3);
+    if radius_at(lo) > r || radius_at(hi) < r {
+        return None;
+    }
+    for _ in 0..60 {
+        let mid = 0.5 * (lo + hi);
+        if radius_at(mid) < r {
+            lo = mid;
+        } else {
+            hi = mid;
+        }
+    }
+    let s = 0.5 * (lo + hi);
+    let a = theta0 + q * s / tr.radius;
+    let (x, y) = (cx + tr.radius * a.cos(), cy + tr.radius * a.sin());
+    Some((y.atan2(x).rem_euclid(TAU), vertex[2] + tr.dz_ds * s))
+}
+
+/// For every space point the library reconstructs from the event: (radius, r·Δφ, Δz, wire
+/// amplitude, pad amplitude) with respect to the closest true track at the same radius (metres). Diagnostic of the forward
+/// model against the library's signal chain (deconvolution, matching, drift lookup).
+pub fn point_residuals(ev: &SimEvent) -> Vec<[f64; 5]> {
+    use alpha_g_physics::SpacePoint;
+    use uom::si::angle::radian;
+    use uom::si::length::meter;
+    match MainEvent::try_from_banks(SIM_RUN, ev.bank_refs()) {
+        Ok(event) => point_residuals_of(ev, &event),
+        Err(_) => Vec::new(),
+    }
+}
+
+fn point_residuals_of(ev: &SimEvent, event: &MainEvent) -> Vec<[f64; 5]> {
+    use alpha_g_physics::SpacePoint;
+    use uom::si::angle::radian;
+    use uom::si::length::meter;
+    let mut out = Vec::new();
+    for a in event.avalanches() {
+        let Ok(p) = SpacePoint::try_from(a) else { continue };
+        let (r, phi, z) = (p.r.get::<meter>(), p.phi.get::<radian>(), p.z.get::<meter>());
+        let mut best: Option<[f64; 5]> = None;
+        for tr in &ev.tracks {
+            let Some((tphi, tz)) = track_at_radius(ev.vertex, tr, r) else { continue };
+            let dphi = (phi - tphi + PI).rem_euclid(TAU) - PI;
+            let cand = [r, r * dphi, z - tz, a.wire_amplitude, a.pad_amplitude];
+            if best.map_or(true, |b| cand[1].hypot(cand[2]) < b[1].hypot(b[2])) {
+                best = Some(cand);
+            }
+        }
+        if let Some(b) = best {
+            out.push(b);
+        }
+    }
+    out
+}
+
+fn quantile(sorted: &[f64], q: f64) -> f64 {
+    if sorted.is_empty() {
+        return f64::NAN;
+    }
+    let pos = q * (sorted.len() - 1) as f64;
+    let (lo, hi) = (pos.floor() as usize, pos.ceil() as usize);
+    sorted[lo] + (sorted[hi] - sorted[lo]) * (pos - lo as f64)
+}
+
+/// `n` events of the default configuration through `try_from_banks` + `vertex()`.
+pub fn stats(seed: u64, n: usize, out_path: &str) {
+    if std::env::var("SIM_POINTS").is_ok() {
+        let h = std::thread::Builder::new().stack_size(64 << 20).spawn(move || {
+            for i in 0..n.min(40) {
+                let ev = simulate_event(&mut event_rng(seed, i), &SimConfig::default());
+                let res = point_residuals(&ev);
+                let mut t: Vec<f64> = res.iter().map(|r| r[1].abs()).collect();
+                let mut z: Vec<f64> = res.iter().map(|r| r[2].abs()).collect();
+                t.sort_by(|a, b| a.partial_cmp(b).unwrap());
+                z.sort_by(|a, b| a.partial_cmp(b).unwrap());
+                let far = res.iter().filter(|r| r[1].hypot(r[2]) > 0.01).count();
+                let mean_t = res.iter().map(|r| r[1]).sum::<f64>() / res.len().max(1) as f64;
+                let mean_z = res.iter().map(|r| r[2]).sum::<f64>() / res.len().max(1) as f64;
+                if i == 0 {
+                    for r in res.iter().filter(|r| r[1].hypot(r[2]) > 0.005) {
+                        println!("   outlier r {:.4} rdphi {:.4} dz {:.4} wire {:.4} pad {:.4}", r[0], r[1], r[2], r[3], r[4]);
+                    }
+                    let mut sd: Vec<f64> = res.iter().map(|r| r[1]).collect();
+                    sd.sort_by(|a, b| a.partial_cmp(b).unwrap());
+                    println!("   median signed rdphi {:.5}", quantile(&sd, 0.5));
+                    for r in res.iter().take(60) {
+                        println!("   point r {:.4} rdphi {:.4} dz {:.4} wire {:.4} pad {:.4}", r[0], r[1], r[2], r[3], r[4]);
+                    }
+                }
+                println!("ev {i} tracks {} points {} med|rdphi| {:.5} p90 {:.5} med|dz| {:.5} p90 {:.5} mean rdphi {:.5} mean dz {:.5} >1cm {far} sigma {:.4} amp {:.1}",
+                    ev.tracks.len(), res.len(), quantile(&t, 0.5), quantile(&t, 0.9), quantile(&z, 0.5), quantile(&z, 0.9), mean_t, mean_z, ev.pad_sigma_z, ev.amplitude);
+            }
+        }).unwrap();
+        h.join().unwrap();
+        return;
+    }
+    let report = stats_with(seed, n, &SimConfig::default());
+    let text = serde_json::to_string_pretty(&report).unwrap();
+    if !out_path.is_empty() {
+        std::fs::write(out_path, &text).expect("write statistics");
+    }
+    println!("{text}");
+}
+
+/// As `stats`, for any configuration; returns the JSON report.
+pub fn stats_with(seed: u64, n: usize, cfg: &SimConfig) -> serde_json::Value {
+    let threads = std::thread::available_parallelism().map(|p| p.get()).unwrap_or(1).clamp(1, 8).min(n.max(1));
+    let started = std::time::Instant::now();
+    let mut outcomes: Vec<Outcome> = std::thread::scope(|scope| {
+        let handles: Vec<_> = (0..threads)
+            .map(|tid| {
+                // `MainEvent` is ≈ 450 kB and lives on the stack
+                std::thread::Builder::new()
+                    .stack_size(64 << 20)
+                    .spawn_scoped(scope, move || {
+                        (tid..n).step_by(threads).map(|i| run_one(seed, i, cfg)).collect::<Vec<_>>()
+                    })
+                    .expect("spawn")
+            })
+            .collect();
+        handles.into_iter().flat_map(|h| h.join().expect("worker")).collect()
+    });
+    outcomes.sort_by_key(|o| o.index);
+    let wall_s = started.elapsed().as_secs_f64();
+
+    let accepted = outcomes.iter().filter(|o| o.build.is_ok()).count();
+    let residuals: Vec<[f64; 3]> = outcomes.iter().filter_map(|o| o.residual).collect();
+    let mut abs_dz: Vec<f64> = residuals.iter().map(|r| r[2].abs()).collect();
+    let mut signed_dz: Vec<f64> = residuals.iter().map(|r| r[2]).collect();
+    let mut transverse: Vec<f64> = residuals.iter().map(|r| r[0].hypot(r[1])).collect();
+    for v in [&mut abs_dz, &mut signed_dz, &mut transverse] {
+        v.sort_by(|a, b| a.partial_cmp(b).unwrap());
+    }
+    let mut p_abs_t: Vec<f64> = outcomes.iter().flat_map(|o| o.points.iter().map(|p| p[0].abs())).collect();
+    let mut p_sgn_t: Vec<f64> = outcomes.iter().flat_map(|o| o.points.iter().map(|p| p[0])).collect();
+    let mut p_abs_z: Vec<f64> = outcomes.iter().flat_map(|o| o.points.iter().map(|p| p[1].abs())).collect();
+    let mut p_sgn_z: Vec<f64> = outcomes.iter().flat_map(|o| o.points.iter().map(|p| p[1])).collect();
+    for v in [&mut p_abs_t, &mut p_sgn_t, &mut p_abs_z, &mut p_sgn_z] {
+        v.sort_by(|a, b| a.partial_cmp(b).unwrap());
+    }
+    let n_points = p_abs_t.len();
+    let far_points = outcomes.iter().flat_map(|o| o.points.iter()).filter(|p| p[0].hypot(p[1]) > 0.005).count();
+    let mean = |f: &dyn Fn(&Outcome) -> f64| outcomes.iter().map(f).sum::<f64>() / outcomes.len().max(1) as f64;
+    let mut by_tracks = serde_json::Map::new();
+    for k in cfg.n_tracks.0..=cfg.n_tracks.1.max(cfg.n_tracks.0) {
+        let all = outcomes.iter().filter(|o| o.n_tracks == k).count();
+        let rec = outcomes.iter().filter(|o| o.n_tracks == k && o.residual.is_some()).count();
+        by_tracks.insert(k.to_string(), serde_json::json!({"events": all, "reconstructed": rec}));
+    }
+    let failures: Vec<serde_json::Value> = outcomes
+        .iter()
+        .filter(|o| o.residual.is_none())
+        .take(200)
+        .map(|o| {
+            serde_json::json!({
+                "event": o.index, "tracks": o.n_tracks,
+                "build": o.build.clone().err(), "panic": o.panic,
+                "avalanches_points_clusters_fitted": o.diagnosis.map(|d| vec![d.0, d.1, d.2, d.3]),
+            })
+        })
+        .collect();
+    serde_json::json!({
+        "seed": seed,
+        "events": outcomes.len(),
+        "accepted_by_try_from_banks": accepted,
+        "deterministic": outcomes.iter().filter(|o| o.deterministic).count(),
+        "panics": outcomes.iter().filter(|o| o.panic.is_some()).count(),
+        "events_with_clamped_samples": outcomes.iter().filter(|o| o.clamped > 0).count(),
+        "reconstructed": residuals.len(),
+        "efficiency": residuals.len() as f64 / outcomes.len().max(1) as f64,
+        "median_abs_dz_m": quantile(&abs_dz, 0.5),
+        "p90_abs_dz_m": quantile(&abs_dz, 0.9),
+        "median_transverse_m": quantile(&transverse, 0.5),
+        "median_signed_dz_m": quantile(&signed_dz, 0.5),
+        "max_abs_dz_m": abs_dz.last().copied(),
+        "by_track_multiplicity": by_tracks,
+        "space_points": {
+            "mean_per_event": n_points as f64 / outcomes.len().max(1) as f64,
+            "median_abs_r_dphi_m": quantile(&p_abs_t, 0.5),
+            "median_signed_r_dphi_m": quantile(&p_sgn_t, 0.5),
+            "median_abs_dz_m": quantile(&p_abs_z, 0.5),
+            "median_signed_dz_m": quantile(&p_sgn_z, 0.5),
+            "fraction_farther_than_5mm": far_points as f64 / n_points.max(1) as f64,
+        },
+        "mean_banks_per_event": mean(&|o| o.n_banks as f64),
+        "mean_simulate_ms": mean(&|o| o.sim_ms),
+        "mean_vertex_ms": mean(&|o| o.vertex_ms),
+        "wall_s": wall_s,
+        "threads": threads,
+        "not_reconstructed": failures,
+        "replay": "sim::simulate_event(&mut sim::event_rng(seed, event), &SimConfig::default())",
+    })
+}
